@@ -44,3 +44,12 @@ def register(check):
           floors={"quick": {"raw_conversations": 300, "raw_expect_tunnel_dead": 30, "raw_expect_tunnel_alive": 200, "raw_clean_streams": 400, "raw_refused_streams": 10, "raw_handler_msgs_checked": 500},
                   "thorough": {"raw_conversations": 8000, "raw_expect_tunnel_dead": 800, "raw_clean_streams": 10000, "raw_refused_streams": 100}},
           assumptions=COMMON_ASSUMPTIONS + ["only the classes the documentation pins are demanded exactly (see DESIGN.md C09); other deviations must fail only their stream or be ignored"])
+    check("C04",
+          level="fault_enumeration",
+          rule="fault injection by enumeration: for each termination cause (Close, cancel / deadline of the opening context, Stop, transport break, reset by the network server, carrier send failure in either direction) "
+               "x each number k of frames delivered before the strike (gated carrier; quick: every 3rd k in 0..72, thorough: every k) x {forward, reverse} x {flow control, revision zero}, over a base workload holding RPCs of all four shapes in every phase; "
+               "non-trivial = the lifecycle oracle judged at least one terminal result; distinct = distinct (cause, k, configuration, observed operation/outcome shape)",
+          nontrivial="terminal_results_checked",
+          floors={"quick": {"termination_runs": 500, "fault_mid_traffic": 250, "fault_at_quiescence": 50, "terminal_results_checked": 3000, "leak_check_done": 500},
+                  "thorough": {"termination_runs": 3500, "fault_mid_traffic": 1500, "terminal_results_checked": 20000}},
+          assumptions=COMMON_ASSUMPTIONS + ["'nothing hangs' is decided as: no operation open at quiescence after the cause struck and one hour of virtual time passed"])
